@@ -473,3 +473,39 @@ pub fn run(args: &[String]) {
         println!("E {{\"sup\":{},\"sub\":{},\"msg\":{}}}", esc(&u[*i].label), esc(&u[*j].label), esc(e));
     }
 }
+
+/// C12 calibration: which iteration order does each seed induce on small probe sets?
+pub fn seedprobe(args: &[String]) {
+    use std::collections::HashSet;
+    let from: u64 = args.first().and_then(|s| s.parse().ok()).unwrap_or(0);
+    let count: u64 = args.get(1).and_then(|s| s.parse().ok()).unwrap_or(16);
+    for seed in from..from + count {
+        let line = std::thread::spawn(move || {
+            set_thread_seed(seed);
+            let mut out = vec![];
+            let sets: Vec<Vec<&str>> = vec![
+                vec!["Int", "Str"],
+                vec!["A", "B"],
+                vec!["Int", "Str", "Float"],
+                vec!["A", "B", "C"],
+                vec!["f", "m", "g"],
+                vec!["Int", "Str", "Float", "Bool"],
+            ];
+            for s in &sets {
+                let hs: HashSet<&str> = s.iter().cloned().collect();
+                let order: Vec<String> = hs.iter().map(|x| s.iter().position(|y| y == x).unwrap().to_string()).collect();
+                out.push(esc(&order.join("")));
+            }
+            // sets of type names, as the checker builds them
+            for s in [vec!["Int", "Str"], vec!["Int", "Str", "Float"]] {
+                let hs: HashSet<TrueName> = s.iter().map(|n| TrueName::from(*n)).collect();
+                let order: Vec<String> = hs.iter().map(|x| s.iter().position(|y| TrueName::from(*y) == *x).unwrap().to_string()).collect();
+                out.push(esc(&order.join("")));
+            }
+            arr(out)
+        })
+        .join()
+        .unwrap_or_default();
+        println!("P {{\"seed\":{seed},\"orders\":{line}}}");
+    }
+}
